@@ -981,7 +981,13 @@ var vC05FlagSets = []scriptflag.Flag{
 func VH_C05_Execute() {
 	vunwindCut(vparam("U", 8))
 	var usb []byte
-	switch vnondetLen("us-kind", 0, 10+2*vparam("LONG", 0)) {
+	// kinds 9, 10 (early success with a non-empty alt stack) and the empty locking script: EARLY=1 (default; the
+	// thorough tier keeps EARLY=0 until its longer head / tail shapes have been run clean with them)
+	kind := vnondetLen("us-kind", 0, 10+2*vparam("LONG", 0))
+	if vparam("EARLY", 1) == 0 {
+		vassume(kind != 9 && kind != 10)
+	}
+	switch kind {
 	case 11:
 		usb = vlongScript(10000) // at the pre-Genesis script size limit
 	case 12:
@@ -1015,7 +1021,7 @@ func VH_C05_Execute() {
 	if vparam("LONG", 0) == 1 && vnondetBool("ls-long") {
 		lsb = vlongScript(10000 + vnondetLen("ls-over", 0, 1))
 	} else {
-		lsb = append(lsb, vnondetBytes("ls", 0, vparam("L", 1))...) // incl. the empty locking script
+		lsb = append(lsb, vnondetBytes("ls", 1-vparam("EARLY", 1), vparam("L", 1))...) // incl. the empty locking script (EARLY=1)
 	}
 	if vparam("TAIL", 0) == 1 {
 		lsb = append(lsb, [][]byte{{}, {bscript.Op1}, {bscript.OpDROP}, {bscript.OpENDIF}, {bscript.OpELSE, bscript.Op1, bscript.OpENDIF}, {bscript.OpVERIFY}, {bscript.OpRETURN}, {bscript.OpFROMALTSTACK}, {bscript.OpEQUAL}, {bscript.OpADD}}[vnondetLen("ls-tail", 0, 9)]...)
